@@ -319,6 +319,7 @@ def translate_typed(text, opts):
     body = '#include "%s"\n' % opts.get('hname', 'unit.h') + '\n'.join(ginits) + '\n\n' + '\n\n'.join(bodies) + '\n'
     info = dict(functions=[n[1:] for n in m.funcs if not (omit and re.search(omit, n))],
                 omitted=[n[1:] for n in m.funcs if omit and re.search(omit, n)],
+                omitted_protos=[e.proto(n, f['ret'], f['args'], f.get('sx', (set(), False))) for n, f in m.funcs.items() if omit and re.search(omit, n)],
                 globals={n[1:]: dict(const=bool(g['const']), has_init=g['init'] is not None, ty=repr(g['ty'])) for n, g in m.globals.items()},
                 decls=[n[1:] for n in m.decls])
     return header, body, info
